@@ -1,5 +1,6 @@
 import GenjaxVerif.Lemmas.GFIUpdate
 import GenjaxVerif.Lemmas.GFIKept
+import GenjaxVerif.Lemmas.GFIArgs
 import GenjaxVerif.Props.GFITest
 /-!
 # C05 — update installs the constraint and weighs by the score change
@@ -15,6 +16,11 @@ theorem C05_update_weight (ds : DistSem) (p : Prog) (i : In) (r : Res) (told : T
     (h : run ds .upd p i = .ok r) (ho : i.old = some told) (hs : Shape p told) (hsafe : Safe i.changed p) :
     r.w = r.tr.score - told.score :=
   upd_w ds p i r told h ho hs hsafe
+
+/-- The new trace holds the new arguments. -/
+theorem C05_new_trace_holds_new_args (ds : DistSem) (p : Prog) (i : In) (r : Res)
+    (h : run ds .upd p i = .ok r) : r.tr.args = i.args :=
+  run_args ds .upd p i r h
 
 /-- The new trace holds the constraint's value at every (validly) constrained address … -/
 theorem C05_update_installs_constraint (ds : DistSem) (p : Prog) (i : In) (r : Res)
